@@ -41,8 +41,26 @@ Example C08_nonvacuous :
   = [[1;2;3;10]; [4;10]; [5]]%N.
 Proof. split; [repeat split | vm_compute; reflexivity]. Qed.
 
+Require Import FL.Flw.NumDInv FL.Flw.NumDRun FL.Flw.NumDTheorems.
+(* NumbersDirect naming: the same greedy partition *)
+Theorem C08_partition_numbersdirect c m t0 off ops :
+  numdcfg c (CSize m) -> Forall basic_op ops ->
+  direct_view c (wfs (s_w (fst (run (sys0 t0 off) (OStart c :: ops ++ [OStop]))))) (expected_files m None (items false ops)).
+Proof. exact (numbersdirect_partition c m t0 off ops). Qed.
+
+(* NumbersDirect naming: a write rotates exactly when the current file already exceeds the limit *)
+Theorem C08_rotates_iff_numbersdirect c m t0 off ops i o b :
+  numdcfg c (CSize m) -> Forall basic_op ops -> nth_error ops i = Some o -> (o = OWrite b \/ o = OPlain b) ->
+  nth_error (snd (run (sys0 t0 off) (OStart c :: ops))) (S i)
+  = Some (ObsRes 0 (m <? N.of_nat (length (cur_of (s_run m None (firstn i ops)))))%N).
+Proof. exact (numbersdirect_rotates_iff c m t0 off ops i o b). Qed.
+
 Check C08_rotates_iff_exceeds.
 Check C08_partition_numbers.
 Print Assumptions C08_rotates_iff_exceeds.
 Print Assumptions C08_partition_numbers.
 Print Assumptions C08_oracle_sound.
+Check C08_partition_numbersdirect.
+Print Assumptions C08_partition_numbersdirect.
+Check C08_rotates_iff_numbersdirect.
+Print Assumptions C08_rotates_iff_numbersdirect.
